@@ -326,6 +326,9 @@ func UpdateJobStatusFromTaskRefs(rj *execution.Job) (*execution.Job, error) {
 				Result:                  execution.JobResultKilled,
 			},
 		}
+
+		// Keep the coarse state consistent with the overridden condition.
+		newRj.Status.State = getJobStateFromCondition(newRj.Status.Condition)
 	}
 
 	// Set phase based on computed status so far.
